@@ -1,5 +1,6 @@
 /-
-I8 (layouts without absorbing): no trigger key and no output key of a mapping in effect is in the
+I8 (every layout, since the D5 fix — `consume_pass_through_keys` runs once more after
+`release_absorbed_keys`): no trigger key and no output key of a mapping in effect is in the
 pass-through list ("consumed").  Gives C02(d) and the second release clause of C05.
 -/
 import TmVerif.Proofs.Foreign
@@ -48,7 +49,7 @@ theorem addNewMapping_clean_pass {s : State} (k0 : Key) (m : Mapping) (hc : Clea
   rw [addPhase3_pass_eq] at h4
   have h3 := pressAll_pass_sub _ _ x h4
   have hc1 : Clean (afterConsume s m) := ⟨hc.abs, hc.trig⟩
-  rw [addPhase2_clean k0 m hc1] at h3
+  rw [addPhase2_clean k0 m hc1 (afterConsume_clear s m)] at h3
   have h2 : x ∈ (afterConsume s m).pass := by
     cases ham : isActionMapping m
     · simpa [ham] using h3
@@ -131,73 +132,194 @@ theorem releaseTail_pass_sub (s : State) (k0 x : Key) (hnd : s.pass.Nodup)
   · have hc' : k0 ∉ s.pass := by simpa using hc
     simpa [releaseTail, hc'] using hx
 
-theorem Consumed.step {L : Layout} {P : List Key} {s : State} (h : Inv L P s) (hcl : Clean s)
+/-! ### the sub-functions of a step preserve `Consumed` (every layout) -/
+
+/-- no key `m` mentions is in the pass-through list -/
+def ConsumedFor (s : State) (m : Mapping) : Prop :=
+  ∀ k, (k ∈ m.frm ∨ k ∈ m.to) → k ∉ s.pass
+
+theorem Consumed.of_sub {s t : State} (hc : Consumed s) (hact : ∀ m, m ∈ t.active → m ∈ s.active)
+    (hpass : ∀ x, x ∈ t.pass → x ∈ s.pass) : Consumed t :=
+  fun m hm k hk hkp => hc m (hact m hm) k hk (hpass k hkp)
+
+theorem ConsumedFor.of_sub {s t : State} {m : Mapping} (hc : ConsumedFor s m)
+    (hpass : ∀ x, x ∈ t.pass → x ∈ s.pass) : ConsumedFor t m :=
+  fun k hk hkp => hc k hk (hpass k hkp)
+
+theorem ram_consumed {s : State} (hc : Consumed s) : Consumed (releaseActionMappings s).1 :=
+  hc.of_sub (fun m hm => by rw [(releaseActionMappings_frame s).2.1] at hm; exact hm) (ram_pass_sub s)
+
+/-- releasing one key: a mapping that stays mentions no pass-through key — old ones by hypothesis,
+handed-over ones because `remove_mapping` only hands over keys the remaining mappings do not mention -/
+theorem releaseKey_consumed {extra : List Key} {s : State} (k0 : Key) (h : IInv extra s) (hc : Consumed s) :
+    Consumed (releaseKey s k0).1 := by
+  rw [releaseKey_eq]
+  intro m' hm' x hx hxp
+  simp only at hm' hxp
+  have hdf := dropFailing_spec k0 s s.active.reverse [] h (by simp) (by simp)
+  have hrt := releaseTail_spec k0 hdf.1 hdf.2.2.1
+  rw [hrt.2.2.2.1] at hm'
+  have hxp' : x ∈ (dropFailing k0 s s.active.reverse []).1.pass :=
+    releaseTail_pass_sub _ k0 x hdf.1.ndPass hxp
+  rcases dropFailing_pass_new k0 s s.active.reverse [] x hxp' with h1 | h1
+  · exact hc m' (hdf.2.1.actSub m' hm') x hx h1
+  · have := h1 m' hm'
+    rcases hx with hx | hx
+    · exact this.1 hx
+    · exact this.2 hx
+
+theorem releaseAbsorbedLoop_consumed {extra : List Key} (s : State) (ks : List Key) (h : IInv extra s)
+    (hc : Consumed s) : Consumed (releaseAbsorbedLoop s ks).1 := by
+  induction ks generalizing s with
+  | nil => exact hc
+  | cons k ks ih =>
+    rw [releaseAbsorbedLoop_cons]
+    exact ih (releaseKey s k).1 (releaseKey_spec k h).1 (releaseKey_consumed k h hc)
+
+theorem releaseAbsorbedKeys_consumed {extra : List Key} (s : State) (h : IInv extra s) (hc : Consumed s) :
+    Consumed (releaseAbsorbedKeys s).1 := by
+  unfold releaseAbsorbedKeys
+  exact releaseAbsorbedLoop_consumed _ s.absorbed
+    ⟨h.ndPass, h.ndMapped, h.disj, h.passInp, h.actInp, h.mappedAct⟩ hc
+
+/-- the second part of `add_new_mapping`: with the D5 fix the keys of `m` are out of pass-through at the
+end, whatever `release_absorbed_keys` handed back -/
+theorem addPhase2_consumed (s : State) (k : Key) (m : Mapping) (h : IInv m.to s) (hc : Consumed s)
+    (hm : ConsumedFor s m) :
+    Consumed (addPhase2 s k m).1 ∧ ConsumedFor (addPhase2 s k m).1 m := by
+  cases ha : isActionMapping m
+  · rw [addPhase2_nonaction s k m ha]; exact ⟨hc, hm⟩
+  · cases hb : shouldAbsorb s k
+    · rw [addPhase2_noabsorb s k m ha hb]
+      exact ⟨ram_consumed hc, hm.of_sub (ram_pass_sub s)⟩
+    · rw [addPhase2_absorb s k m ha hb]
+      have h1 := releaseActionMappings_spec h
+      have c2 := releaseAbsorbedKeys_consumed _ h1.1 (ram_consumed hc)
+      refine ⟨c2.of_sub (fun _ hx => hx) (fun x hx => (afterConsume_pass_clear _ m x hx).1), ?_⟩
+      intro x hx hxp
+      have := (afterConsume_pass_clear _ m x hxp).2
+      rcases hx with hx | hx
+      · exact this.1 hx
+      · exact this.2 hx
+
+/-- firing a mapping -/
+theorem addNewMapping_consumed (s : State) (k0 : Key) (m : Mapping) (h : IInv [] s) (hc : Consumed s) :
+    Consumed (addNewMapping s k0 m).1 := by
+  have c1 := (consume_spec s m h).1
+  simp only [List.nil_append] at c1
+  have hc1 : Consumed (afterConsume s m) :=
+    hc.of_sub (fun _ hx => hx) (fun x hx => (afterConsume_pass_clear s m x hx).1)
+  have hm1 : ConsumedFor (afterConsume s m) m := by
+    intro x hx hxp
+    have := (afterConsume_pass_clear s m x hxp).2
+    rcases hx with hx | hx
+    · exact this.1 hx
+    · exact this.2 hx
+  have p2 := addPhase2_consumed (afterConsume s m) k0 m c1 hc1 hm1
+  have d1 := (addPhase2_spec (afterConsume s m) k0 m c1).1
+  have pa := pressAll_spec (addPhase2 (afterConsume s m) k0 m).1 m.to d1 (fun _ hx => hx)
+  have hact3 : (addPhase3 (addPhase2 (afterConsume s m) k0 m).1 k0 m).1.active =
+      (addPhase2 (afterConsume s m) k0 m).1.active ++ [m] := by
+    have : (addPhase3 (addPhase2 (afterConsume s m) k0 m).1 k0 m).1.active =
+        (pressAll (addPhase2 (afterConsume s m) k0 m).1 m.to).1.active ++ [m] := by
+      unfold addPhase3; split <;> rfl
+    rw [this, pa.2.2.2.2.2.2.2.2.2.1]
+  rw [addNewMapping_eq]
+  simp only [addPhase1_eq]
+  intro m' hm' x hx hxp
+  have h4 := addPhase4_pass_sub _ k0 m x hxp
+  rw [addPhase3_pass_eq] at h4
+  have h3 := pressAll_pass_sub _ _ x h4
+  rw [(addPhase4_frame _ k0 m).2.2.2, hact3] at hm'
+  simp only [List.mem_append, List.mem_singleton] at hm'
+  rcases hm' with hm' | hm'
+  · exact p2.1 m' hm' x hx h3
+  · subst hm'; exact p2.2 x hx h3
+
+/-- passing a key through that no mapping in effect mentions -/
+theorem passThrough_consumed (s : State) (k0 : Key) (h : IInv [] s) (hc : Consumed s)
+    (hnohit : ∀ m, m ∈ s.active → k0 ∉ m.frm ∧ k0 ∉ m.to) : Consumed (passThrough s k0).1 := by
+  have key : ∃ s1, (passThrough s k0).1 = { s1 with pass := s1.pass ++ [k0] } ∧
+      Consumed s1 ∧ ∀ m, m ∈ s1.active → m ∈ s.active := by
+    unfold passThrough
+    cases ha : isActionKey k0
+    · exact ⟨s, by simp, hc, fun _ hm => hm⟩
+    · have h1 := releaseActionMappings_spec h
+      have h2 := releaseAbsorbedKeys_spec _ h1.1
+      exact ⟨_, by simp, releaseAbsorbedKeys_consumed _ h1.1 (ram_consumed hc), (h1.2.trans h2.2.1).actSub⟩
+  obtain ⟨s1, heq, hc1, hsub⟩ := key
+  rw [heq]
+  intro m' hm' x hx hxp
+  simp only [List.mem_append, List.mem_singleton] at hm' hxp
+  rcases hxp with hxp | hxp
+  · exact hc1 m' hm' x hx hxp
+  · subst hxp
+    have := hnohit m' (hsub m' hm')
+    rcases hx with hx | hx
+    · exact this.1 hx
+    · exact this.2 hx
+
+theorem Consumed.step {L : Layout} {P : List Key} {s : State} (h : Inv L P s)
     (hc : Consumed s) (e : Event) : Consumed (TmVerif.step L s e).1 := by
   cases e with
   | pressed k0 =>
     by_cases hk0 : k0 ∈ s.inp
     · rw [step_pressed_ignored L s k0 hk0]; exact hc
     · rw [step_pressed_accepted L s k0 hk0]
-      have hc0 : Clean (pressPrep s k0) := ⟨by simp [pressPrep, hcl.abs], hcl.trig⟩
+      have hc0 : Consumed (pressPrep s k0) := hc
       cases hf : findMapping L s k0 with
       | some m =>
         rw [newlyPress_fire hf]
-        have a := addNewMapping_spec (pressPrep s k0) k0 m (pressPrep_iinv k0 h.i) (findMapping_some hf).2.2
-        obtain ⟨act, hact, hsub⟩ := a.2.2.2.1
-        intro m' hm' x hx hxp
-        have hp := addNewMapping_clean_pass k0 m hc0 x hxp
-        simp only [hact, List.mem_append, List.mem_singleton] at hm'
-        rcases hm' with hm' | hm'
-        · exact hc m' (hsub m' hm') x hx hp.1
-        · subst hm'
-          rcases hx with hx | hx
-          · exact hp.2.1 hx
-          · exact hp.2.2 hx
+        exact addNewMapping_consumed (pressPrep s k0) k0 m (pressPrep_iinv k0 h.i) hc0
       | none =>
         cases hn : noHit s k0 with
         | true =>
           rw [newlyPress_pass hf hn]
-          have pc := passThrough_clean k0 hc0
-          intro m' hm' x hx hxp
-          simp only at hm' hxp
-          rw [pc.2.2] at hm'
-          rcases passThrough_clean_pass k0 hc0 x hxp with h1 | h1
-          · exact hc m' hm' x hx h1
-          · subst h1
-            have := ((noHit_iff s x).mp hn).1 m' hm'
-            rcases hx with hx | hx
-            · exact this.1 hx
-            · exact this.2 hx
+          exact passThrough_consumed (pressPrep s k0) k0 (pressPrep_iinv k0 h.i) hc0 ((noHit_iff s k0).mp hn).1
         | false => rw [newlyPress_skip hf hn]; exact hc
   | released k0 =>
     by_cases hk0 : k0 ∈ s.inp
     · rw [step_released_accepted L s k0 hk0]
-      have hst : (newlyRelease s k0).1 = (releaseKey s k0).1 := rfl
-      rw [hst, releaseKey_eq]
-      intro m' hm' x hx hxp
-      simp only at hm' hxp
-      have hdf := dropFailing_spec k0 s s.active.reverse [] h.i (by simp) (by simp)
-      have hrt := releaseTail_spec k0 hdf.1 hdf.2.2.1
-      rw [hrt.2.2.2.1] at hm'
-      have hxp' : x ∈ (dropFailing k0 s s.active.reverse []).1.pass :=
-        releaseTail_pass_sub _ k0 x hdf.1.ndPass hxp
-      rcases dropFailing_pass_new k0 s s.active.reverse [] x hxp' with h1 | h1
-      · exact hc m' (hdf.2.1.actSub m' hm') x hx h1
-      · have := h1 m' hm'
-        rcases hx with hx | hx
-        · exact this.1 hx
-        · exact this.2 hx
+      exact releaseKey_consumed k0 h.i hc
     · rw [step_released_ignored L s k0 hk0]; exact hc
 
-theorem ReachableEv.consumed {L : Layout} (hL : NoAbs L) {x : Sys} (h : ReachableEv L x) : Consumed x.s := by
+/-- I8 for every layout: over every history of key events no key a mapping in effect mentions is passed through -/
+theorem ReachableEv.consumed {L : Layout} {x : Sys} (h : ReachableEv L x) : Consumed x.s := by
   obtain ⟨evs, rfl⟩ := h
-  suffices ∀ (y : Sys), SInv L y → NAInv y.P y.s → Consumed y.s → Consumed (Sys.run L y (evs.map Op.ev)).s from
-    this Sys.init (SInv.init L) NAInv.init (by intro m hm; simp [Sys.init, State.init] at hm)
+  suffices ∀ (y : Sys), SInv L y → Consumed y.s → Consumed (Sys.run L y (evs.map Op.ev)).s from
+    this Sys.init (SInv.init L) (by intro m hm; simp [Sys.init, State.init] at hm)
   induction evs with
-  | nil => exact fun y _ _ hc => hc
+  | nil => exact fun y _ hc => hc
   | cons e es ih =>
-    intro y hy hn hc
+    intro y hy hc
     simp only [List.map_cons, Sys.run, List.foldl_cons]
-    exact ih _ (hy.next (Op.ev e)).1 (NAInv.step hL hy.inv hn e) (Consumed.step hy.inv hn.clean hc e)
+    exact ih _ (hy.next (Op.ev e)).1 (Consumed.step hy.inv hc e)
+
+/-- the release-all loop is a sequence of release steps: it preserves I8 -/
+theorem releaseAllLoop_consumed (L : Layout) (P : List Key) (s : State) (ks : List Key) (h : Inv L P s)
+    (hc : Consumed s) : Consumed (releaseAllLoop L s ks).1 := by
+  induction ks generalizing s with
+  | nil => exact hc
+  | cons k ks ih =>
+    have heq : (releaseAllLoop L s (k :: ks)).1 = (releaseAllLoop L (TmVerif.step L s (Event.released k)).1 ks).1 := rfl
+    rw [heq]
+    have hi : Inv L P (TmVerif.step L s (Event.released k)).1 :=
+      (step_inv L P s (Event.released k) h).1.monoP (by intro x hx; simp only [applyEv, List.mem_filter] at hx; exact hx.1)
+    exact ih _ hi (Consumed.step h hc (Event.released k))
+
+/-- I8 for every layout and every history of key events AND release-all calls -/
+theorem Reachable.consumed {L : Layout} {x : Sys} (h : Reachable L x) : Consumed x.s := by
+  obtain ⟨ops, rfl⟩ := h
+  suffices ∀ (y : Sys), SInv L y → Consumed y.s → Consumed (Sys.run L y ops).s from
+    this Sys.init (SInv.init L) (by intro m hm; simp [Sys.init, State.init] at hm)
+  induction ops with
+  | nil => exact fun y _ hc => hc
+  | cons op ops ih =>
+    intro y hy hc
+    simp only [Sys.run, List.foldl_cons]
+    apply ih _ (hy.next op).1
+    cases op with
+    | ev e => exact Consumed.step hy.inv hc e
+    | relAll => exact releaseAllLoop_consumed L y.P y.s y.s.inp hy.inv hc
 
 end TmVerif
